@@ -463,7 +463,8 @@ def call_builtin(eng, nm, args, kw, st, e):
                 if v.num is not None or v.boo is not None or v.tup is not None or v.is_static_none():
                     return Val.of_bool(False)
                 if v.poly is not None:
-                    return Val.of_bool(eng.kind_is(v, "ndarray"))
+                    k_ = eng.kind_is(v, "ndarray")
+                    return Val.of_bool(z3.And(z3.Not(v.none), k_) if v.none is not None else k_)
             if t.py[0] == "class" and v.py is not None and v.py[0] == "instance":
                 return Val.of_bool(v.py[1] == tn)
         r = z3.Bool(c.fresh("isinstance"))
@@ -847,7 +848,7 @@ def sf_forall(eng, e, st, exists=False):
     s2 = st.copy()
     for n_, v in zip(names, vs):
         s2.env[n_] = Val.of_num(N(v))
-    rng = z3.And(*[z3.And(v >= 0, v < b) for v, b in zip(vs, bounds)])
+    rng = z3.And(*[z3.And(v >= 0, v < b) for v, b in zip(vs, bounds)]) if bounds else z3.BoolVal(True)
     if skolem:
         body = eng.truth(eng.ev(lam.body, s2))
         return Val.of_bool(z3.And(rng, body) if exists else z3.Implies(rng, body))
@@ -1016,7 +1017,39 @@ def sf_upd(eng, e, st):
     return Val.of_arr(Arr(1, (n,), lambda k: n_ite(k == i, v, a.elem(k)), "num"))
 
 
+def _seqfun(which):
+    def f(eng, e, st):
+        from contracts import models
+        k = eng.as_int(eng.ev(e.args[0], st))
+        if which == "argpt":
+            return Val(py=("pt", models.argpt(k)))
+        return Val.of_num(N(models.retval(k) if which == "retval" else models.retsd(k)))
+
+    return f
+
+
+def _statfun(name):
+    def f(eng, e, st):
+        return npmodel.stat_uf(name, eng.ev(e.args[0], st))
+
+    return f
+
+
+def sf_ghost_sqrt(eng, e, st):
+    """sqrt(size of the array) as np.sqrt(a.size) computes it."""
+    a = eng.ev(e.args[0], st).get_arr()
+    if a is None:
+        raise Undecided("ghost_sqrt needs an array")
+    return npmodel.NPFUNCS["sqrt"](eng, st, [Val.of_num(N(a.size()))], {}, e)
+
+
+def sf_abs(eng, e, st):
+    return npmodel.lift1(npmodel.n_abs, eng.ev(e.args[0], st))
+
+
 SPECFUNCS = {
+    "ghost_sqrt": sf_ghost_sqrt, "abs": sf_abs,
+    "retval": _seqfun("retval"), "retsd": _seqfun("retsd"), "argpt": _seqfun("argpt"), "mean_of": _statfun("mean"), "std_of": _statfun("std"),
     "upd": sf_upd,
     "row": sf_row, "pt": sf_pt, "invt": _ptfun("InvT"), "fwdt": _ptfun("FwdT"), "cval": _ptfun("Cval", False), "feasx": sf_feasx,
     "pteq": sf_pteq, "ptat": sf_ptat,
